@@ -276,8 +276,12 @@ pub fn limits(a: &Args, rep: &mut Report) {
     let mut rng = sh.rng(0x11317);
     let want_transcript = a.has("transcript");
     let mut tfile = if want_transcript { Some(std::fs::File::create(a.str("transcript", "t.txt")).expect("create transcript")) } else { None };
+    let skip = a.u64("skip", 0);
     for h in 0..sh.n {
         let mut hr = rng.fork();
+        if h < skip {
+            continue;
+        }
         let size = *hr.pick(&[0usize, 1, 3, 7, 9, 14, 15, 20, 28, 29, 40, 57, 100]);
         let state = hr.below(7);
         let elem = *hr.pick(&[ElemKind::U64, ElemKind::U64, ElemKind::TrInline]);
